@@ -541,6 +541,13 @@ def main():
             disp_r = "if str_eqb name %s then %s__from_xml else %s" % (coq_str(n), n, disp_r)
     L.append("Definition dispatch_to_xml (name : str) : pyval -> res pyval := %s." % disp_w)
     L.append("Definition dispatch_from_xml (name : str) : pyval -> res pyval := %s." % disp_r)
+    # the simple-type class behind every non-enumeration row, and the proof that the row's writer / reader IS that
+    # class's to_xml / from_xml (proofs/C11_rows_custom.v lifts class-level theorems to rows through this)
+    L.append("Definition row_classes : list str := [%s]." % "; ".join(
+        ("[]" if r["is_enum"] else coq_str(r["st"])) for r in rows))
+    L.append("Definition row_is (r : attr_row) (c : str) : Prop := c = [] \\/ ((forall v, ar_to_xml r v = dispatch_to_xml c v) /\\ (forall v, ar_from_xml r v = dispatch_from_xml c v)).")
+    L.append("Lemma rows_classes_ok : Forall2 row_is rows row_classes.")
+    L.append("Proof. unfold rows, row_classes. repeat (constructor; [ first [ left; reflexivity | right; split; intros v; reflexivity ] | ]). constructor. Qed.")
     write_if_changed(os.path.join(VERIF, "coq", "gen", "GenC11.v"), "\n".join(L) + "\n")
     json.dump({"rows": rows, "simple_types": meta_st, "enums": enums, "unmodelled": unm, "abstract": abstract,
                "notjudged": notjudged, "n_defs": len(tr.defs)},
